@@ -13,3 +13,17 @@ func (m *Manager) VerifSync(ctx context.Context) error {
 	defer m.mu.Unlock()
 	return m.synchronizePipelines(ctx)
 }
+
+// VerifState lists the ids of the running pipelines (`m.pipelines`) and the
+// exporter ids with a registered driver (`m.drivers`), sorted by the caller.
+func (m *Manager) VerifState() (pipelines []string, exporters []string) {
+	m.mu.Lock()
+	defer m.mu.Unlock()
+	for id := range m.pipelines {
+		pipelines = append(pipelines, id)
+	}
+	for id := range m.drivers {
+		exporters = append(exporters, id)
+	}
+	return
+}
